@@ -71,9 +71,14 @@ def build(rng, shape, body, binding, name):
         L.append("class TestK:"); ind = "    "; params = ["self"]
     if shape == "decorated":
         deco = ["@pytest.mark.skip"]
+    if shape in ("marked-uf", "marked-uf-fixture"):
+        # requested through a mark, not as a parameter: the name is still undeclared in the body
+        deco = [f'@pytest.mark.usefixtures("{name}")']
+        if shape == "marked-uf-fixture":
+            deco.append("@pytest.fixture"); fn = "my_fixture"
     if shape == "fixture":
         deco = ["@pytest.fixture"]; fn = "my_fixture"
-    if shape in ("one", "method", "async", "decorated", "one-line-body", "fixture", "spaces"):
+    if shape in ("one", "method", "async", "decorated", "one-line-body", "fixture", "spaces", "marked-uf", "marked-uf-fixture"):
         params += ["beta"] if name != "beta" else ["alpha"]
     if shape in ("many", "multiline", "multiline-trailing"):
         params += ["beta" if name != "beta" else "alpha", "tmp_x", "other"]
@@ -266,6 +271,9 @@ def run(tier, seed):
     items = []
     # fixed combinations first (no random draw): every binding situation once with a plain use of a visible fixture name
     fixed = [("fixture" if j % 4 == 3 else "one", BODIES[0], bnd, "alpha") for j, bnd in enumerate(sorted(set(BINDINGS)))]
+    # … and a test / a fixture that requests the name through `@pytest.mark.usefixtures` while using it in the body
+    fixed += [("marked-uf", BODIES[0], "none", "alpha"), ("marked-uf", BODIES[1], "none", "beta"),
+              ("marked-uf-fixture", BODIES[0], "none", "alpha"), ("marked-uf", BODIES[3], "assigned-before", "alpha")]
     for i in range(n):
         rng = r.rng
         if i < len(fixed):
